@@ -161,7 +161,8 @@ def run(ctx):
         ctx.sample({'text': info[obs[40]['id']][0], 'parts': obs[40]['parts']})
     ctx.extra['code_to_spec'] = {'bsd_decoders': len(names), 'exempt': sorted(EXEMPT), 'error_values': len(errs),
                                  'observations': nv}
-    from .render import report_raised
+    from .render import report_raised, report_unstable
     report_raised(ctx, pr)
+    report_unstable(ctx, pr)
     ctx.assumptions += ['NAME of a known errno is judged by C18, not here', 'a quoted output path appended to the result '
                         '(fsgetpath) is not part of the result rule']
